@@ -125,7 +125,8 @@ def get_facts(repo='/repo', cfg='A', verbose=False):
         lock.close()
 
 
-def _prune(root, keep, max_entries=48):
+def _prune(root, keep, max_entries=None):
+    max_entries = max_entries or int(os.environ.get('DESFACTS_CACHE_MAX', '48'))
     try:
         ents = [(os.path.getmtime(os.path.join(root, d)), d) for d in os.listdir(root) if d != keep]
     except OSError:
